@@ -87,8 +87,13 @@ CHECKS.update({
         text=("Pairs (P, Q) of small programs over disjoint names that reuse the same explicit signals and neighbouring tiles, in ALL "
               "order-preserving interleavings: the build of the interleaved program runs in lock-step with the build of P alone (and Q alone) "
               "from every valuation of both programs' inputs; P's exported values and entity conditions must coincide, hence be independent "
-              "of Q's inputs."),
-        design="DESIGN 7 C12", technique="TLC lock-step product of build(P;Q) with build(P) / build(Q) over the joint input space"),
+              "of Q's inputs. In addition the wire-colour design model Colour.tla (the mechanism that keeps different sources of one signal "
+              "type apart) is model-checked exhaustively (every edge sequence / lock choice of a small universe: lock respected, total, "
+              "sound, flag truthful, complete, terminating), every call of the real planner recorded by hook H5 during these compilations "
+              "is judged against it by TraceColour.tla, and TLC-enumerated planner inputs (104k instances; a 6k slice in quick) are fed to "
+              "the real plan_wire_colors and judged the same way."),
+        design="DESIGN 7 C12, 14.9 Colour", technique="TLC lock-step product of build(P;Q) with build(P) / build(Q) over the joint input space; "
+        "TLC design model of wire colouring + trace validation of planner calls (code -> spec) + TLC-enumerated planner inputs replayed into the code (spec -> code)"),
     "C13": dict(
         text=("(1) The allocator design model Alloc.tla is model-checked exhaustively on a small instance (all explicit subsets, wrap-around) "
               "for NotSpecial / FreshVsExplicit / InjectiveUntilWrap. (2) Hook events (pool, alloc) of every compile are validated as a "
